@@ -130,7 +130,11 @@ class Interp(ExprMixin, StmtMixin, CallMixin, BuiltinMixin):
             if exc.name in c.may_raise:
                 for i, cl in enumerate(c.may_raise[exc.name]):
                     self.oblige("raised-%s/ensures[%d]:%s" % (exc.name, i, cl[:70]), self.eval_clause(cl), kind="ensures")
-                ctx.oblige(self.prefix + "cover:raise-%s" % exc.name, z3.BoolVal(False), "cover", True)
+                # a PERMITTED exception (may_raise) need not be reachable: a contract that allows a raise the code can
+                # never perform is not vacuous.  The reachability query is kept for information only (kind
+                # "cover-optional"): its ``unsat`` is reported as a note, never as vacuity.  The preconditions are
+                # guarded by cover:return and the canary.
+                ctx.oblige(self.prefix + "cover:raise-%s" % exc.name, z3.BoolVal(False), "cover-optional", True)
             elif exc.name in raise_conds:
                 self.oblige("raises:%s-only-when:%s" % (exc.name, c.raises[exc.name][:60]), raise_conds[exc.name],
                             kind="raises")
